@@ -225,6 +225,11 @@ func (m SetModel) ruleSet() RuleSet {
 func (g *G) GenPoolMgmtOp(universe []*RuleDef, cur SetModel, ver *int, kinds []int, invalidPct int) *MgmtOp {
 	o := &MgmtOp{Kind: g.PickInt(kinds)}
 	n := len(universe)
+	if o.Kind == OpFull && len(g.Hist) > 0 && g.Pct(20) {
+		// resubmit an earlier text byte for byte: the installed set must again be exactly that text's
+		h := g.Hist[g.Intn(len(g.Hist))]
+		return &MgmtOp{Kind: OpFull, Rules: h.Rules, Text: h.Text}
+	}
 	switch o.Kind {
 	case OpFull, OpIncr:
 		k := g.Range(1, n)
@@ -258,6 +263,8 @@ func (g *G) GenPoolMgmtOp(universe []*RuleDef, cur SetModel, ver *int, kinds []i
 		if g.Pct(invalidPct) {
 			o.Invalid = true
 			o.Text = breakText(o.Text, g.Intn(5))
+		} else if o.Kind == OpFull {
+			g.Hist = append(g.Hist, o)
 		}
 	case OpRemove:
 		switch g.Intn(5) {
@@ -279,6 +286,15 @@ func (g *G) GenPoolMgmtOp(universe []*RuleDef, cur SetModel, ver *int, kinds []i
 		}
 	case OpSetEM:
 		o.EM = g.Range(0, 5)
+	}
+	return o
+}
+
+// initialOp describes the text a pool was constructed with as a full-update operation.
+func initialOp(rules []*RuleDef, text string) *MgmtOp {
+	o := &MgmtOp{Kind: OpFull, Text: text}
+	for _, r := range rules {
+		o.Rules = append(o.Rules, MRuleDef{r.ID, r.Sal, r.Ver})
 	}
 	return o
 }
@@ -308,6 +324,7 @@ func RunW2(opt *W2Opt, plan, sched *simrt.Source, trace bool) *RunOut {
 	p := opt.Prof
 	rules := g.GenRuleSet(p)
 	text := RenderSet(rules)
+	g.Hist = append(g.Hist, initialOp(rules, text))
 	size := poolSizes[g.Intn(len(poolSizes))]
 	em := 1 + g.Intn(4)
 	w := &W2Run{Opt: opt, Min: size[0], Max: size[1], EM: em, Rules: rules, Out: o, NilTag: map[int]bool{}}
